@@ -2,7 +2,8 @@
 # Build the overlay venv used by every check (offline; wheels from /opt/veriftools/wheels).
 # /verif/.venv = /venv (repo deps: numpy, matplotlib, scipy, Bio) + z3-solver, cvc5, crosshair-tool, jsonschema.
 set -e
-V=/verif/.venv
+HERE=$(cd "$(dirname "$0")" && pwd)
+V="$HERE/.venv"
 if [ -x "$V/bin/python" ] && "$V/bin/python" -c "import z3, numpy, jsonschema" 2>/dev/null; then
   exit 0
 fi
